@@ -19,9 +19,13 @@ EXPLANATION = (
     'recurses over recorded modules - or check_changes discards the whole long-lived cache, or there is no '
     'retention; R2 every server request runs the API inside `with self.project.check_changes()` and '
     'check_changes clears the per-request cache before yielding; R3 the per-request cache only ever receives a '
-    'module that has just passed the validity predicate. Equality of answers after a concrete edit history is NOT '
-    'decided.')
-TECHNIQUE = 'retention-site inventory (memo stores fed by cross-module lookups) vs. read-set of the cache validity predicate'
+    'module that has just passed the validity predicate; R5 Project.get_module, check_changes and SourceModule.changed are '
+    'abstractly interpreted on a modelled file system with scripted modification times over every history of bounded length '
+    '(edit, restore an older revision, create, request, request that fails after validating its module): the module served '
+    'inside a fresh change-checking context must carry the current modification time of its file - for the module asked for '
+    'directly; staleness reached through imports of unchanged modules is R1. Equality of complete answers after a concrete edit '
+    'history is NOT decided.')
+TECHNIQUE = 'retention-site inventory vs. read-set of the cache validity predicate + abstract interpretation of the module cache over all bounded edit histories'
 
 PROJECT = 'supp/project.py'
 MODULE = 'supp/module.py'
@@ -183,5 +187,9 @@ def run(repo, res):
     res.check('C09-R3', '_context_cache writers', not others, PROJECT, others[0][1] if others else 0,
               '_context_cache may be filled only by get_module', nontrivial=False)
     res.count('context_cache_stores', len(stores), floor=1)
+    # ---- R5 the cache protocol itself, interpreted over edit histories on a modelled file system -------------------
+    from .. import api_model
+    depth = 5 if getattr(repo, 'tier', 'quick') == 'thorough' else 3
+    api_model.apply(res, api_model.cache_history_model(repo, depth), {'history': 'C09-R5', 'history-count': 'C09-R5'}, PROJECT, 0)
     res.assumptions.extend(['a validity predicate that iterates/recurses over recorded modules is taken to be dependency aware',
                             'mtime granularity, deletions and shadowing are outside the property domain'])
